@@ -338,7 +338,7 @@ struct NodeSpec {
     name: String,
     addr: SocketAddr,
     id: Option<InfoHash>,
-    read_only: bool,
+    read_only: Option<bool>,
     announce_port: Option<u16>,
     nodes: Vec<SocketAddr>,
     routers: Vec<String>,
@@ -434,7 +434,11 @@ pub fn sim(_args: &[String]) -> i32 {
                 name: p[1].to_string(),
                 addr: parse_addr(p[2]),
                 id: kv(&p, "id").map(parse_id),
-                read_only: kv(&p, "ro").map_or(true, |x| x == "1"),
+                // ro=- leaves the builder's default untouched (documented default: read-only)
+                read_only: match kv(&p, "ro") {
+                    Some("-") | None => None,
+                    Some(x) => Some(x == "1"),
+                },
                 announce_port: kv(&p, "aport").and_then(|x| if x == "-" { None } else { Some(x.parse().unwrap()) }),
                 nodes: kv(&p, "nodes").map_or(vec![], addr_list),
                 routers: kv(&p, "routers").map_or(vec![], |s| {
@@ -555,7 +559,10 @@ pub fn sim(_args: &[String]) -> i32 {
         let start_node = |spec: NodeSpec, hub: &Arc<Hub>| -> (String, MainlineDht) {
             let rx = hub.register(spec.addr);
             let sock = SimSocket { addr: spec.addr, rx: tokio::sync::Mutex::new(rx), hub: hub.clone() };
-            let mut b = MainlineDht::builder().set_read_only(spec.read_only);
+            let mut b = MainlineDht::builder();
+            if let Some(ro) = spec.read_only {
+                b = b.set_read_only(ro);
+            }
             if let Some(id) = spec.id {
                 b = b.set_node_id(id);
             }
@@ -668,6 +675,8 @@ pub fn sim(_args: &[String]) -> i32 {
                             b
                         }
                         "zero" => vec![0u8; 20],
+                        // a very long (invalid) token: the query still fits one datagram
+                        "huge" => vec![0x41u8; 1200],
                         "empty" => vec![],
                         _ => base,
                     };
